@@ -506,6 +506,97 @@ Proof.
     apply c02_ancestors_complete; [exact Ha | apply c06_anc_short; assumption].
 Qed.
 
+(* the oracle's expansion [leaves_of] (fuel = number of tasks) yields exactly the leaves below a task *)
+Definition depth (w : list itask) (t : nat) : nat := length (ancestors w (length w) t).
+
+Lemma c02_anc_stable w : forall n t, (length (ancestors w n t) < n)%nat ->
+  forall m, (n <= m)%nat -> ancestors w m t = ancestors w n t.
+Proof.
+  induction n as [|n IH]; intros t H m Hm; [simpl in H; lia|]. destruct m as [|m]; [lia|].
+  simpl in *. destruct (k_parent (gett w t)); [|reflexivity]. simpl in H. f_equal. apply IH; lia.
+Qed.
+
+Lemma c02_depth_child w p ch : WFin w -> k_ext (gett w p) = false -> In ch (k_children (gett w p)) ->
+  depth w ch = S (depth w p).
+Proof.
+  intros Hw Hpe Hch. destruct (mo_children _ _ (c06_wfin_member w p Hw Hpe) ch Hch) as [Hr [Hce Hpar]].
+  unfold depth. pose proof (c06_anc_short w ch Hw Hce) as Hs.
+  destruct (length w) as [|n] eqn:HL; [lia|].
+  assert (E : ancestors w (S n) ch = p :: ancestors w n p) by (simpl; rewrite Hpar; reflexivity).
+  rewrite E in Hs |- *. cbn [length] in Hs |- *. f_equal.
+  rewrite (c02_anc_stable w n p ltac:(lia) (S n) ltac:(lia)). reflexivity.
+Qed.
+
+Lemma c02_depth_below w p q : WFin w -> below w p q -> k_ext (gett w p) = false -> (depth w p <= depth w q)%nat.
+Proof.
+  intros Hw. induction 1 as [p | p ch q Hpe Hch Hbel IH]; intros He; [lia|].
+  rewrite (c02_depth_child w p ch Hw He Hch) in IH.
+  destruct (mo_children _ _ (c06_wfin_member w p Hw He) ch Hch) as [_ [Hce _]]. specialize (IH Hce). lia.
+Qed.
+
+Lemma c02_leaves_sound w : WFin w -> forall f p q, k_ext (gett w p) = false -> In q (leaves_of w f p) ->
+  is_leaf (gett w q) = true \/ (depth w p + f <= depth w q)%nat.
+Proof.
+  intros Hw. induction f as [|f IH]; intros p q He; simpl.
+  - intros [<-|[]]. right. lia.
+  - destruct (k_children (gett w p)) as [|c cs] eqn:Hc.
+    + intros [<-|[]]. left. unfold is_leaf. rewrite Hc. reflexivity.
+    + rewrite He. intros H. change (In q (flat_map (leaves_of w f) (c :: cs))) in H.
+      apply in_flat_map in H. destruct H as [ch [Hch Hq]]. rewrite <- Hc in Hch.
+      destruct (mo_children _ _ (c06_wfin_member w p Hw He) ch Hch) as [_ [Hce _]].
+      destruct (IH ch q Hce Hq) as [L|R]; [left; exact L | right].
+      rewrite (c02_depth_child w p ch Hw He Hch) in R. lia.
+Qed.
+
+Lemma c02_leaves_complete w : WFin w -> forall p q, below w p q -> k_ext (gett w p) = false ->
+  is_leaf (gett w q) = true -> forall f, (depth w q <= depth w p + f)%nat -> In q (leaves_of w f p).
+Proof.
+  intros Hw. induction 1 as [p | p ch q Hpe Hch Hbel IH]; intros He Hl f Hd.
+  - destruct f; simpl; [left; reflexivity|]. unfold is_leaf in Hl.
+    destruct (k_children (gett w p)); [left; reflexivity | discriminate].
+  - destruct (mo_children _ _ (c06_wfin_member w p Hw He) ch Hch) as [_ [Hce _]].
+    pose proof (c02_depth_child w p ch Hw He Hch) as Hdc.
+    pose proof (c02_depth_below w ch q Hw Hbel Hce) as Hdq.
+    destruct f as [|f]; [lia|]. simpl. destruct (k_children (gett w p)) as [|c cs] eqn:Hc; [destruct Hch|].
+    rewrite He. change (In q (flat_map (leaves_of w f) (c :: cs))). apply in_flat_map. exists ch.
+    split; [exact Hch|]. apply IH; [exact Hce | exact Hl | lia].
+Qed.
+
+Theorem c02_leaves_of_exact w p q : WFin w -> (p < length w)%nat ->
+  (In q (leaves_of w (length w) p) <-> below w p q /\ is_leaf (gett w q) = true).
+Proof.
+  intros Hw Hr. destruct (k_ext (gett w p)) eqn:He.
+  - (* outside the WBS: a pair of dates, no children *)
+    assert (Hl : is_leaf (gett w p) = true).
+    { pose proof Hw as Hb. unfold WFin, wfin_b in Hb. rewrite forallb_forall in Hb.
+      specialize (Hb p ltac:(apply in_seq; lia)). unfold is_ext in Hb. rewrite He in Hb.
+      unfold wfin_ext_b in Hb. unfold is_leaf. destruct (k_parent (gett w p)); [discriminate|].
+      destruct (k_children (gett w p)); [reflexivity | discriminate]. }
+    rewrite (c02_leaves_ext w _ p He). split.
+    + intros [<-|[]]. split; [constructor | exact Hl].
+    + intros [Hbel _]. inversion Hbel; subst; [left; reflexivity | congruence].
+  - split.
+    + intros H. pose proof (c02_leaves_below w _ p q H) as Hbel. split; [exact Hbel|].
+      destruct (c02_leaves_sound w Hw _ p q He H) as [L|R]; [exact L|].
+      pose proof (c06_anc_short w q Hw (c02_below_member w p q Hw Hbel He)). unfold depth in R. lia.
+    + intros [Hbel Hl]. apply (c02_leaves_complete w Hw p q Hbel He Hl).
+      pose proof (c06_anc_short w q Hw (c02_below_member w p q Hw Hbel He)). unfold depth. lia.
+Qed.
+
+(* "each expanded to its leaf descendants": the oracle's [prereq_leaves] is exactly that *)
+Theorem c02_prereq_leaves_meaning w t q : WFin w -> k_ext (gett w t) = false ->
+  (In q (prereq_leaves w t) <->
+   exists p, In p (prereqs w t) /\ below w p q /\ is_leaf (gett w q) = true).
+Proof.
+  intros Hw He. unfold prereq_leaves. rewrite in_flat_map.
+  assert (Hr : forall p, In p (prereqs w t) -> (p < length w)%nat).
+  { intros p Hp. unfold prereqs in Hp. apply in_app_or in Hp. destruct Hp as [Hp|Hp].
+    - exact (proj1 (mo_preds _ _ (c06_wfin_member w t Hw He) p Hp)).
+    - apply in_flat_map in Hp. destruct Hp as [a [Ha Hp]].
+      exact (proj1 (mo_preds _ _ (c06_wfin_member w a Hw (c06_anc_member w Hw _ t He a Ha)) p Hp)). }
+  split; intros [p [Hp H]]; exists p; (split; [exact Hp|]); apply (c02_leaves_of_exact w p q Hw (Hr p Hp)); exact H.
+Qed.
+
 (* every prerequisite, and everything below it, has an end in the returned schedule: the bounds of
    C02_leaf are never vacuous *)
 Theorem C02_prereq_ends_defined cfg w st t p q :
